@@ -279,6 +279,21 @@ def run(facts, rep, tier, ctx):
     c10.marker_rules(facts, rep, ws, prefix="R04.4m", only=("R10.3",))
     n = read_to_string_rules(facts, rep, ws, D)
     rep.floor("read_to_string obligations", n, 2)
+    # R04.6 "that file": a write session changes the bytes of the path it was opened on and of no other — the physical translator
+    # maps distinct names to distinct OS paths (a backslash is part of a name; splitting on it makes `2024\\report.txt` and
+    # `2024/report.txt` one file), and a native two-path operation of an in-memory backend re-keys exactly the subtree it was
+    # asked to (prefix match at a '/' boundary, destination vacant) — shared with C07 R07.2 and Table M
+    from . import c07 as _c07g, c01 as _c01m
+    from .c10 import _Prefixed as _Pf4
+    for w6 in (ws, World(facts, True)):
+        if not w6.present():
+            continue
+        _c07g.physical_gate(facts, _Pf4(rep, ("A/" if w6.asyncw else "") + "R04.6g"), w6, D)
+        scr6 = _Rp4("m")
+        _c01m.table_m(facts, scr6, "M", "Mk", self_ty=w6.memory, trait=w6.trait.rsplit("::", 1)[1], ops_filter=_c01m.TWO_PATH_OPS)
+        for o in scr6.obligations:
+            if o["rule"] == "M":
+                rep.ob(("A/" if w6.asyncw else "") + "R04.6m", o["fn"], o["key"].split("|")[2], o["ok"], o["detail"], o["loc"])
     # reader window and seek bases (C14's shapes) and PhysicalFS open options decide which bytes come back
     h.read_rules(rep, "R04.r")
     h.seek_rules(rep, "R04.r", "R04.r")
